@@ -1,5 +1,4 @@
 import NbioVerif.Properties.C15
-import NbioVerif.Lemmas.SrcBridgeWs
 #print axioms Ws.c15_delivered_within
 #print axioms Ws.c15_buffered_within
 #print axioms Ws.c15_readAll_bound
@@ -13,5 +12,4 @@ import NbioVerif.Lemmas.SrcBridgeWs
 #print axioms Ws.c15_cache_bound_by_limit
 #print axioms Ws.c15_cache_bound_counterexample
 #print axioms Ws.c15_cache_bound_partial
-#print axioms Ws.src_isMessageTooLarge
-#print axioms Ws.src_maxControl
+#print axioms Ws.c15_delivered_within_handoff
